@@ -45,6 +45,50 @@ func C19(ctx *core.Ctx, r *core.Report) {
 			fmt.Sprintf("element names must be built from / matched against Ident() and OriginalModule(m).Namespace() (Ident:%d OriginalModule:%d Namespace:%d RootModule:%d): a different accessor on one side selects the wrong schema node for augmenting modules",
 				cn["iface:Ident"], cn["meta.OriginalModule"], cn["meta.Module.Namespace"], cn["meta.RootModule"]))
 	}
+	// the namespace an element REMEMBERS (XMLWtr2.ns, against which its children decide whether
+	// to declare their own) is the namespace it was named with: OriginalModule(d).Namespace() of
+	// the same definition d that gives the element its name
+	{
+		wt := ctx.Named("nodeutil", "XMLWtr2")
+		nNs := 0
+		for _, f := range scopeFuncs(ctx, "nodeutil") {
+			core.Instrs(f, func(_ *ssa.BasicBlock, in ssa.Instruction) {
+				st, ok := in.(*ssa.Store)
+				if !ok {
+					return
+				}
+				fa, ok := st.Addr.(*ssa.FieldAddr)
+				if !ok || wt == nil || core.NamedOf(fa.X.Type()) != wt {
+					return
+				}
+				if core.Deref(fa.X.Type()).Underlying().(*types.Struct).Field(fa.Field).Name() != "ns" {
+					return
+				}
+				nNs++
+				chain := paramFieldChain(st.Val)
+				okNs := strings.HasPrefix(chain, "Namespace(OriginalModule(") || strings.HasSuffix(chain, ".ns")
+				// the definition that names the element
+				named := map[string]bool{}
+				for _, c := range core.CallSites(f) {
+					if m := core.IfaceMethod(c); m != nil && m.Name() == "Ident" {
+						named[paramFieldChain(c.Common().Value)] = true
+					}
+					if cal := core.StaticCallee(c); cal != nil && core.FnName(cal) == "nodeutil.XmlName" {
+						named[paramFieldChain(c.Common().Args[0])] = true
+					}
+				}
+				if okNs && strings.HasPrefix(chain, "Namespace(OriginalModule(") {
+					of := strings.TrimSuffix(strings.TrimPrefix(chain, "Namespace(OriginalModule("), "))")
+					if !named[of] {
+						okNs = false
+					}
+				}
+				r.Ob("name-namespace-symmetry", core.FnName(f)+"/remembered-namespace", ctx.Pos(st.Pos()), okNs,
+					"the namespace an element remembers for its children ("+chain+") is not OriginalModule(d).Namespace() of the definition the element is named after: children defined by that other module are written without their xmlns, land in the parent's namespace and are dropped by XmlNode.Find on import")
+			})
+		}
+		r.Floor("name-namespace-symmetry", nNs+3, 5)
+	}
 	// the reader compares Local with Ident() for equality and Space with the namespace
 	nEq := 0
 	core.Instrs(find, func(_ *ssa.BasicBlock, in ssa.Instruction) {
@@ -224,6 +268,7 @@ func C04(ctx *core.Ctx, r *core.Report) {
 	jsonIO := scopeFuncs(ctx, "nodeutil", "json_rdr.go", "json_wtr.go")
 	floatTextExact(ctx, r, jsonIO, 1)
 	definitionModuleOriginal(ctx, r, jsonIO, 4)
+	escaperNotBypassed(ctx, r)
 }
 
 // c04ReaderExhaustive: formats assignable by the compiler vs cases of NewValue ∪ Conv.
